@@ -114,4 +114,15 @@ PROPS = {
         quick=dict(shards=16, checks=300, extra=[], timeout=900),
         thorough=dict(shards=16, checks=2500, extra=[], timeout=3400),
     ),
+    "C20": dict(
+        pkg="c20",
+        technique="property-based round-trip testing (rapid) at the exported layer APIs (MQ coder, EBCOT T1, 5/3 DWT, RCT) plus exhaustive enumeration of short MQ sequences and short 1-D signals",
+        level_text="Exploration: MQ sequences up to 10^5 symbols over 1-19 contexts with per-context bias and long runs; T1 blocks 1x1..64x64, four orientations, all 64 style combinations, magnitudes up to 2^24, decoded through every public decode route the library's tier-2 uses; DWT sizes 1..257, levels 0-8, origins 0-7; RCT triples within +-2^28; exhaustive small sub-domains.",
+        level_note="A T1 block counts as reproduced if any of the three public decode routes returns it exactly (the harness demands nothing tier-2 could not supply). Trusts the Go runtime.",
+        rule=("rapid-generated experiments of four kinds. Non-trivial: MQ - >= 64 symbols and >= 1 output byte 0xFF; T1 - >= 2 bit-planes and (height > 4 or style != 0); "
+              "DWT - levels >= 1 and min(w,h) >= 2; RCT - >= 1 triple. Distinct = hash of the case."),
+        assumptions=COMMON_ASSUME,
+        quick=dict(shards=16, checks=600, extra=["TestStyles", "TestExhaustive"], timeout=900),
+        thorough=dict(shards=16, checks=12000, extra=["TestStyles", "TestExhaustive"], timeout=3400),
+    ),
 }
